@@ -17,6 +17,8 @@ type Opts struct {
 	NoForeign   bool     // no foreign-currency items
 	NoBreakdown bool
 	InvoiceOnly bool
+	TaxHeavy    bool // more combos per row, more surcharges / extensions / country overrides / keyed and exempt rates
+	OnlyInclude bool // when a tax is included in prices, rows only carry that category (gross-sum relation of C02)
 }
 
 var commonPercents = []string{"21%", "10%", "4%", "5.5%", "7%", "19%", "20%", "17.5%", "50%", "5%", "0.5%", "12.5%", "2.5%", "100%", "60%", "33.33%", "0%", "16%", "8.875%", "25%", "1.75%", "15%"}
@@ -155,16 +157,41 @@ func genSubLine(t *rapid.T, label string, c int, cur string, o Opts, foreignOK b
 }
 
 // combosFor draws the tax combos of a row from the regime's published categories.
-func combosFor(t *rapid.T, label string, reg *pubdata.RegimeInfo, include string, others []string) []Combo {
+// CombosFor is exported for checks that build their own rows.
+func CombosFor(t *rapid.T, label string, regime string, include string, o Opts) []Combo {
+	regs, list := pubdata.Regimes()
+	var others []string
+	for _, cc := range list {
+		if cc == regime {
+			continue
+		}
+		for _, cat := range regs[cc].Categories {
+			if cat.Code == "VAT" {
+				others = append(others, cc)
+			}
+		}
+	}
+	return combosFor(t, label, regs[regime], include, others, o)
+}
+
+func combosFor(t *rapid.T, label string, reg *pubdata.RegimeInfo, include string, others []string, o Opts) []Combo {
 	if reg == nil || len(reg.Categories) == 0 {
 		return nil
 	}
 	n := rapid.SampledFrom([]int{0, 1, 1, 1, 1, 2, 2, 3}).Draw(t, label+"_n")
+	pKey, pSur, pExt, pCty := 3, 1, 1, 1 // out of 10 / 10 / 12 / 15
+	if o.TaxHeavy {
+		n = rapid.SampledFrom([]int{1, 1, 2, 2, 3, 4}).Draw(t, label+"_nh")
+		pKey, pSur, pExt, pCty = 4, 3, 3, 3
+	}
+	if o.OnlyInclude && include != "" {
+		n = rapid.SampledFrom([]int{0, 1, 1, 1}).Draw(t, label+"_no")
+	}
 	var out []Combo
 	used := map[string]bool{}
 	for i := 0; i < n; i++ {
 		var cat pubdata.CategoryInfo
-		if include != "" && i == 0 && rapid.IntRange(0, 9).Draw(t, label+"_inc") < 8 {
+		if include != "" && i == 0 && (o.OnlyInclude || rapid.IntRange(0, 9).Draw(t, label+"_inc") < 8) {
 			for _, c := range reg.Categories {
 				if c.Code == include {
 					cat = c
@@ -187,21 +214,21 @@ func combosFor(t *rapid.T, label string, reg *pubdata.RegimeInfo, include string
 		}
 		k := rapid.IntRange(0, 9).Draw(t, label+"_how")
 		switch {
-		case k < 3 && len(keys) > 0:
+		case k < pKey && len(keys) > 0:
 			cb.Rate = keys[rapid.IntRange(0, len(keys)-1).Draw(t, label+"_key")].Key
 		default:
 			cb.Percent = percent(t, label+"_pct")
 			if strings.HasPrefix(cb.Percent, "-") {
 				cb.Percent = strings.TrimPrefix(cb.Percent, "-")
 			}
-			if rapid.IntRange(0, 9).Draw(t, label+"_sur") == 0 {
+			if rapid.IntRange(0, 9).Draw(t, label+"_sur") < pSur {
 				cb.Surcharge = rapid.SampledFrom([]string{"5.2%", "1.4%", "0.5%", "1.75%"}).Draw(t, label+"_surv")
 			}
 		}
-		if rapid.IntRange(0, 11).Draw(t, label+"_ext") == 0 {
+		if rapid.IntRange(0, 11).Draw(t, label+"_ext") < pExt {
 			cb.Ext = map[string]string{"xx-verif-group": rapid.SampledFrom([]string{"A", "B"}).Draw(t, label+"_extv")}
 		}
-		if cat.Code == "VAT" && cb.Rate == "" && len(others) > 0 && rapid.IntRange(0, 14).Draw(t, label+"_cty") == 0 {
+		if cat.Code == "VAT" && cb.Rate == "" && len(others) > 0 && rapid.IntRange(0, 14).Draw(t, label+"_cty") < pCty {
 			cb.Country = rapid.SampledFrom(others).Draw(t, label+"_ctyv")
 		}
 		out = append(out, cb)
@@ -291,7 +318,7 @@ func GenPlan(t *rapid.T, o Opts) Plan {
 			l.ItemCurrency = ""
 			l.AltPrices = nil
 		}
-		l.Taxes = combosFor(t, label+"_tx", reg, p.PricesInclude, others)
+		l.Taxes = combosFor(t, label+"_tx", reg, p.PricesInclude, others, o)
 		p.Lines = append(p.Lines, l)
 	}
 	docAdj := func(label string) DocAdj {
@@ -306,7 +333,7 @@ func GenPlan(t *rapid.T, o Opts) Plan {
 		default:
 			a.Amount = fixedAmount(t, label+"_amt", c, o.FixedAtCur)
 		}
-		a.Taxes = combosFor(t, label+"_tx", reg, p.PricesInclude, others)
+		a.Taxes = combosFor(t, label+"_tx", reg, p.PricesInclude, others, o)
 		return a
 	}
 	for i, n := 0, rapid.SampledFrom([]int{0, 0, 0, 1, 1, 2}).Draw(t, "ndisc"); i < n; i++ {
